@@ -78,4 +78,8 @@ theorem text_SessionData_GetAccessToken_ok : Oidc.Shapes.Text_SessionData_GetAcc
 theorem text_SessionData_GetRefreshToken_ok : Oidc.Shapes.Text_SessionData_GetRefreshToken := by unfold Oidc.Shapes.Text_SessionData_GetRefreshToken; rfl
 
 theorem shape_handleCallback_ok : Oidc.Shapes.Shape_handleCallback := by unfold Oidc.Shapes.Shape_handleCallback; rfl
+
+/-! ## Program text of the helpers these theorems also rest on (constructors, accessors, token endpoint, configuration) -/
+theorem text_Config_Validate_ok : Oidc.Shapes.Text_Config_Validate := by unfold Oidc.Shapes.Text_Config_Validate; rfl
+
 end Oidc.Props.C17
